@@ -171,6 +171,15 @@ def build(kind, shape, rng, recv):
     if kind == "faces8":
         n = int(np.prod(shape)) if len(shape) else 1
         return np.array([rng.randint(0, 7) for _ in range(n)], dtype=np.int64).reshape(shape)
+    if kind == "nearpoly" and recv is not None and hasattr(recv, "v") and len(shape) >= 1 and shape[-1] == 3:
+        n = int(np.prod(shape[:-1])) if len(shape) > 1 else 1
+        rows = []
+        for j in range(n):
+            i = rng.randrange(recv.num_v - 1)
+            f = rng.randint(1, 15) / 16          # distinct interior parameters, exact in binary64
+            off = np.array([rng.randint(-2, 2), rng.randint(-2, 2), rng.randint(-2, 2)]) / 16
+            rows.append(recv.v[i] * (1 - f) + recv.v[i + 1] * f + off)
+        return np.array(rows, dtype=np.float64).reshape(shape)
     if kind == "vertex" and shape == (3,) and recv is not None:
         return np.array(recv.v[1])
     if kind == "vertex2" and shape == (3,) and recv is not None:
@@ -333,6 +342,31 @@ def mutations(shape):
     return out
 
 
+def linked_length_probes(form, kv, b0):
+    users = {}
+    for a, fs in form.items():
+        if isinstance(fs, tuple):
+            for i, d in enumerate(fs):
+                if sym(d) is not None:
+                    users.setdefault(sym(d)[0], []).append((a, i))
+    out = []
+    k = max(kv, 2)
+    for name, us in users.items():
+        linked = len({a for a, _ in us}) >= 2 or name in b0
+        if not linked:
+            continue
+        base = instantiate(form, k, b0)
+        for a0 in sorted({a for a, _ in us}):
+            for this, others in ((1, None), (None, 1)):
+                sh = {a: (list(v) if isinstance(v, tuple) else v) for a, v in base.items()}
+                for a, i in us:
+                    val = this if a == a0 else others
+                    if val is not None:
+                        sh[a][i] = val
+                out.append({a: (tuple(v) if isinstance(v, list) else v) for a, v in sh.items()})
+    return out
+
+
 def recv_b0(e, seed):
     if e.b0 is None:
         return {}
@@ -372,18 +406,26 @@ def probes_for(e, seeds, kvals):
                         sh = dict(base)
                         sh[a] = ms
                         emit("valid" if in_forms(e, sh, b0) else "wrong_" + label, sh, seed)
+                # length-linked arguments (a symbol shared by >= 2 arguments, or with the receiver): a stack of
+                # length 1 against stacks of length k >= 2 and the converse -- the one mismatch NumPy broadcasts
+                for sh in linked_length_probes(form, kv, b0):
+                    emit("valid" if in_forms(e, sh, b0) else "wrong_length_one", sh, seed)
         if e.stack:
-            for kv in ([0] if e.stack.get("empty") else []) + [1, 3]:
+            for kv in ([0] if e.stack.get("empty") else []) + [1, 3, 5]:
                 form = e.forms[-1]
                 base = instantiate({a: tuple(("k" if isinstance(d, str) else d) for d in s) if isinstance(s, tuple) else s
                                     for a, s in form.items()}, kv, b0)
                 for vi in range(nvar):
-                    c = {"kind": ("stack_empty" if kv == 0 else "stack") + ("" if vi == 0 else "_flags"), "callable": e.public,
-                         "shapes": {a: (list(s) if isinstance(s, tuple) else s) for a, s in base.items()}, "seed": seed,
-                         "stack": True, "variant": vi}
-                    cases.append(c)
+                    for rep in range(1 if kv == 0 else STACK_REPS):
+                        c = {"kind": ("stack_empty" if kv == 0 else "stack") + ("" if vi == 0 else "_flags"),
+                             "callable": e.public,
+                             "shapes": {a: (list(s) if isinstance(s, tuple) else s) for a, s in base.items()},
+                             "seed": seed + 7919 * rep, "stack": True, "variant": vi}
+                        cases.append(c)
     return cases
 
+
+STACK_REPS = 3   # value seeds per stacked-vs-row-by-row comparison (rows must differ: generators give distinct rows)
 
 HELPER_SHAPES = [None, "number", (), (3,), (4,), (2,), (0, 3), (1, 3), (2, 3), (2, 4), (3, 3), (2, 3, 3), (3, 2, 3), (2, 3, 1)]
 
